@@ -2,7 +2,7 @@
    Print Assumptions.  Threads, schedules and histories are unbounded everywhere. *)
 From Coq Require Import ZArith List Bool Lia.
 Import ListNotations.
-From S2T Require Import C15.Model C15.ProofsPatch C15.ProofsMemo.
+From S2T Require Import C15.Model C15.ProofsPatch C15.ProofsMemo C15.ProofsShared.
 
 (* ---- the protocol of the pristine tree (save / set / yield / restore, no lock) is REFUTED ---- *)
 
@@ -198,3 +198,50 @@ Example C15_aes_guard_hypotheses_satisfiable :
       needs d = true /\ detect d = false /\ detect other = true).
 Proof. split; [reflexivity|]. exists (fun _ => true), (fun b => b), false, true. auto. Qed.
 Print Assumptions C15_aes_guard_hypotheses_satisfiable.
+
+(* ---- the lazily filled type registry (serialization._get_type_registry) ---- *)
+
+(* filled in place it is REFUTED: a second thread finds the dict non-empty while the first is still
+   filling it and gets a registry in which most names cannot be looked up *)
+Theorem C15_type_registry_inplace_refuted :
+  exists (n : nat) (sched : list nat) (th : reg_thread) (v : list nat),
+    nth_error (rthreads (reg_run n (reg_init 2 (reg_inplace n)) sched)) 1 = Some th /\
+    rview th = Some v /\ reg_full n v = false.
+Proof. exact reg_inplace_incomplete_view. Qed.
+Print Assumptions C15_type_registry_inplace_refuted.
+
+(* published with one atomic update, every view any thread ever gets is complete: any number of
+   names, any number of threads, any schedule *)
+Theorem C15_type_registry_publish_complete :
+  forall (n k : nat) (sched : list nat) (t : nat) (th : reg_thread) (v : list nat),
+    nth_error (rthreads (reg_run n (reg_init k (reg_publish n)) sched)) t = Some th ->
+    rview th = Some v -> reg_full n v = true.
+Proof. exact reg_publish_complete. Qed.
+Print Assumptions C15_type_registry_publish_complete.
+
+Example C15_type_registry_views_exist :
+  forallb (fun th => match rview th with Some _ => true | None => false end)
+          (rthreads (reg_run 4 (reg_init 3 (reg_publish 4)) [0;1;2;0;1;2;0;1;2]%nat)) = true.
+Proof. exact reg_publish_can_return. Qed.
+Print Assumptions C15_type_registry_views_exist.
+
+(* ---- there is no other shared state ---- *)
+
+(* if every cell of the inventory of module-level / class-level objects is classified (constant,
+   memo table, lazily filled, protocol state at rest, configuration), then after ANY history of
+   uses and attempted writes by any threads every cell yields exactly what it yields in a fresh
+   process *)
+Theorem C15_no_other_shared_state :
+  forall (content : nat -> nat -> nat) (kinds : list kind) (history : list op) (i key : nat),
+    forallb classified kinds = true -> (i < length kinds)%nat ->
+    read content (store_run content (map new_cell kinds) history) i key = Some (content i key).
+Proof. exact no_other_shared_state. Qed.
+Print Assumptions C15_no_other_shared_state.
+
+(* a single unclassified cell falsifies it *)
+Theorem C15_unclassified_shared_state_refuted :
+  exists (kinds : list kind) (h : list op) (i key : nat),
+    (i < length kinds)%nat /\
+    read (fun _ _ => 0%nat) (store_run (fun _ _ => 0%nat) (map new_cell kinds) h) i key <> Some 0%nat.
+Proof. exact unclassified_cell_refuted. Qed.
+Print Assumptions C15_unclassified_shared_state_refuted.
